@@ -24,16 +24,6 @@ open SigpyVerif
 section
 variable {α : Type} [CommRing α] [StarRing α]
 
-/-- unit signal -/
-def delta (k : Int) : Int → α := fun t => if t = k then 1 else 0
-
-/-- a list read as a signal (zero outside) -/
-def sig (l : List α) : Int → α := fun t => if 0 ≤ t then l.getD t.toNat 0 else 0
-
-/-- matrix of a map between signals of lengths `m` → `p`: column `i` is the image of the `i`-th unit signal -/
-def matOf (p m : Nat) (F : (Int → α) → Int → α) : List (Ent α) :=
-  (List.range p).flatMap fun k => (List.range m).flatMap fun i => [((k, i, F (delta (i : Int)) (k : Int)) : Ent α)]
-
 theorem matOf_congr (p m : Nat) (F : (Int → α) → Int → α) (ent : Nat → Nat → α)
     (h : ∀ k < p, ∀ i < m, F (delta (i : Int)) (k : Int) = ent k i) :
     matOf p m F = (List.range p).flatMap fun k => (List.range m).flatMap fun i => [((k, i, ent k i) : Ent α)] := by
@@ -65,16 +55,6 @@ theorem sum_delta_right (n : Nat) (g : Nat → α) (i : Nat) (hi : i < n) :
 
 /-! ### 1-D single-channel convolution classes -/
 
-/-- `(full, m, n, s)` for a 1-D, single-channel, batch-free instance with valid parameters -/
-def conv1Params (ds fs : List Int) (mode : String) (st : Option (List Int)) (mc : Bool) :
-    Option (Bool × Int × Int × Int) :=
-  if ds.length = 1 ∧ fs.length = 1 ∧ mc = false ∧ (mode = "full" ∨ mode = "valid") ∧ (st.getD [1]).length = 1 then
-    if 1 ≤ getI ds 0 ∧ 1 ≤ getI fs 0 ∧ 0 < getI (st.getD [1]) 0 ∧
-        (decide (mode = "full") = true ∨ getI fs 0 ≤ getI ds 0) then
-      some (decide (mode = "full"), getI ds 0, getI fs 0, getI (st.getD [1]) 0)
-    else none
-  else none
-
 theorem conv1Params_spec {ds fs : List Int} {mode : String} {st : Option (List Int)} {mc : Bool}
     {full : Bool} {m n s : Int} (h : conv1Params ds fs mode st mc = some (full, m, n, s)) :
     1 ≤ m ∧ 1 ≤ n ∧ 0 < s ∧ (full = true ∨ n ≤ m) := by
@@ -84,34 +64,10 @@ theorem conv1Params_spec {ds fs : List Int} {mode : String} {st : Option (List I
   obtain ⟨rfl, rfl, rfl, rfl⟩ := h
   exact h2
 
-/-- what the four convolution classes denote in the 1-D single-channel case (C08 model) -/
-def convSem : Opaque α → Option (Sem α)
-  | .convData ds filt mode st mc =>
-      (conv1Params ds filt.shape mode st mc).map fun q =>
-        ⟨[C08.codeLen q.1 q.2.1 q.2.2.1 q.2.2.2], [q.2.1],
-          matOf (C08.codeLen q.1 q.2.1 q.2.2.1 q.2.2.2).toNat q.2.1.toNat
-            fun d => C08.conv1At q.1 q.2.1 q.2.2.1 q.2.2.2 d (sig filt.data)⟩
-  | .convDataAdj ds filt mode st mc =>
-      (conv1Params ds filt.shape mode st mc).map fun q =>
-        ⟨[q.2.1], [C08.codeLen q.1 q.2.1 q.2.2.1 q.2.2.2],
-          matOf q.2.1.toNat (C08.codeLen q.1 q.2.1 q.2.2.1 q.2.2.2).toNat
-            fun y => C08.dataAdj1At star q.1 q.2.1 q.2.2.1 q.2.2.2 y (sig filt.data)⟩
-  | .convFilt fs data mode st mc =>
-      (conv1Params data.shape fs mode st mc).map fun q =>
-        ⟨[C08.codeLen q.1 q.2.1 q.2.2.1 q.2.2.2], [q.2.2.1],
-          matOf (C08.codeLen q.1 q.2.1 q.2.2.1 q.2.2.2).toNat q.2.2.1.toNat
-            fun f => C08.conv1At q.1 q.2.1 q.2.2.1 q.2.2.2 (sig data.data) f⟩
-  | .convFiltAdj fs data mode st mc =>
-      (conv1Params data.shape fs mode st mc).map fun q =>
-        ⟨[q.2.2.1], [C08.codeLen q.1 q.2.1 q.2.2.1 q.2.2.2],
-          matOf q.2.2.1.toNat (C08.codeLen q.1 q.2.1 q.2.2.1 q.2.2.2).toNat
-            fun y => C08.filtAdj1At star q.1 q.2.1 q.2.2.1 q.2.2.2 y (sig data.data)⟩
-  | _ => none
-
 /-- the leaf of an opaque operator: its own entries, and the entries of the operator that the *generated*
     `_adjoint_linop` table returns for it -/
 def convLeaf (c : Opaque α) : Option (Leaf α) :=
-  match convSem c, convSem (Gen.LinopAdjoint.adjOpaque c) with
+  match convSem star c, convSem star (Gen.LinopAdjoint.adjOpaque c) with
   | some s, some s' => some (.ext 8 s.osh s.ish s.E s'.E)
   | _, _ => none
 
@@ -204,6 +160,26 @@ theorem conv_leaf_proved (c : Opaque α) (l : Leaf α) (h : convLeaf c = some l)
       exact matOf_isAdj _ _ _ _ (fun j k => star (C08.entF full m n s (sig data.data) (k : Int) (j : Int))) h2
         (fun k hk j hj => by rw [star_star]; exact h1 k hk j hj)
   | _ => simp [convSem] at h
+
+/-- **the pairing of the remaining opaque classes, as translated from their `_adjoint_linop`:**
+    FFT ↔ IFFT with the same shape, axes and `center` (what C05's `ifft_table_eq_conjTranspose` /
+    `sigpy_fft_unitary` need: the adjoint of the centred orthonormal DFT is the inverse on the same axes),
+    Wavelet ↔ InverseWavelet with the same axes, wavelet name and level (C10's `iwt1_is_adjoint`),
+    NUFFT ↔ NUFFTAdjoint with the same coordinates, oversampling and width (C06/C07).  Kernel-checked
+    against the generated table on every run. -/
+theorem adjOpaque_table :
+    (∀ s a c, Gen.LinopAdjoint.adjOpaque (.fft s a c : Opaque α) = .ifft s a c) ∧
+    (∀ s a c, Gen.LinopAdjoint.adjOpaque (.ifft s a c : Opaque α) = .fft s a c) ∧
+    (∀ s a w l, Gen.LinopAdjoint.adjOpaque (.wavelet s a w l : Opaque α) = .iwavelet s a w l) ∧
+    (∀ s a w l, Gen.LinopAdjoint.adjOpaque (.iwavelet s a w l : Opaque α) = .wavelet s a w l) ∧
+    (∀ s c o w t, Gen.LinopAdjoint.adjOpaque (.nufft s c o w t : Opaque α) = .nufftAdj s c o w) ∧
+    (∀ s c o w, Gen.LinopAdjoint.adjOpaque (.nufftAdj s c o w : Opaque α) = .nufft s c o w false) ∧
+    (∀ d f m s c, Gen.LinopAdjoint.adjOpaque (.convData d f m s c : Opaque α) = .convDataAdj d f m s c) ∧
+    (∀ d f m s c, Gen.LinopAdjoint.adjOpaque (.convDataAdj d f m s c : Opaque α) = .convData d f m s c) ∧
+    (∀ d f m s c, Gen.LinopAdjoint.adjOpaque (.convFilt d f m s c : Opaque α) = .convFiltAdj d f m s c) ∧
+    (∀ d f m s c, Gen.LinopAdjoint.adjOpaque (.convFiltAdj d f m s c : Opaque α) = .convFilt d f m s c) :=
+  ⟨fun _ _ _ => rfl, fun _ _ _ => rfl, fun _ _ _ _ => rfl, fun _ _ _ _ => rfl, fun _ _ _ _ _ => rfl,
+   fun _ _ _ _ => rfl, fun _ _ _ _ _ => rfl, fun _ _ _ _ _ => rfl, fun _ _ _ _ _ => rfl, fun _ _ _ _ _ => rfl⟩
 
 variable (ofRat : Rat → α)
 
